@@ -33,7 +33,7 @@ fn assert_agrees<T: Ord>(x: &T, y: &T, m: Ordering) {
     assert!(x.cmp(x) == Ordering::Equal && x == x, "C15: cmp/eq not reflexive");
 }
 
-// @h prop=C15 tier=quick kind=proof inst="ReadSlice<MirrorRegion<u8>>, both region-backed, same region" bounds="two adjacent items: <=3 symbolic bytes with symbolic length vs 2 symbolic bytes (shorter, equal-length and longer first item; prefixes and equal contents all in the query)" desc="==, partial_cmp, cmp coincide with lexicographic order of the owned vectors; reflexive; antisymmetric"
+// @h memw=10 prop=C15 tier=quick kind=proof inst="ReadSlice<MirrorRegion<u8>>, both region-backed, same region" bounds="two adjacent items: <=3 symbolic bytes with symbolic length vs 2 symbolic bytes (shorter, equal-length and longer first item; prefixes and equal contents all in the query)" desc="==, partial_cmp, cmp coincide with lexicographic order of the owned vectors; reflexive; antisymmetric"
 #[cfg_attr(kani, kani::proof, kani::unwind(6))]
 pub fn c15_slice_region_region() {
     let a = Bytes::<3>::any_symlen();
@@ -46,7 +46,7 @@ pub fn c15_slice_region_region() {
     sym::forget(r);
 }
 
-// @h prop=C15 tier=quick kind=proof inst="ReadSlice<MirrorRegion<u8>>, region-backed in two different regions" bounds="two items of <=3 symbolic bytes in different regions (different offsets)" desc="comparison is by content, not by region or offset"
+// @h memw=5 prop=C15 tier=quick kind=proof inst="ReadSlice<MirrorRegion<u8>>, region-backed in two different regions" bounds="two items of <=3 symbolic bytes in different regions (different offsets)" desc="comparison is by content, not by region or offset"
 #[cfg_attr(kani, kani::proof, kani::unwind(6))]
 pub fn c15_slice_two_regions() {
     let a = Bytes::<3>::any_symlen();
@@ -127,7 +127,7 @@ pub fn c15_nested() {
     sym::forget(r);
 }
 
-// @h prop=C15 tier=quick kind=proof inst="three ReadSlice<MirrorRegion<u8>> items (transitivity cross-check)" bounds="three adjacent items of 2 symbolic bytes each" desc="a<=b and b<=c imply a<=c; eq agrees with cmp == Equal"
+// @h memw=5 prop=C15 tier=quick kind=proof inst="three ReadSlice<MirrorRegion<u8>> items (transitivity cross-check)" bounds="three adjacent items of 2 symbolic bytes each" desc="a<=b and b<=c imply a<=c; eq agrees with cmp == Equal"
 #[cfg_attr(kani, kani::proof, kani::unwind(6))]
 pub fn c15_triple() {
     let a = Bytes::<3>::any_len(2);
@@ -185,13 +185,13 @@ fn enc_raw(op: u8, blen: usize) {
     sym::forget(code);
 }
 
-// @h prop=C15 tier=quick kind=proof timeout=900 unwindset="from_fn|drop_glue|drop_in_place:258" inst="Wrapped<u8>: Huffman-ENCODED item vs raw item (uniform 2-bit code over the symbols 0..3, table via hook; no B-tree)" bounds="encoded item = 2 code words (4 bits of a symbolic byte); raw item = 2 symbolic symbols in 0..3" desc="== across representations coincides with equality of the decoded symbol vectors"
+// @h memw=4 prop=C15 tier=quick kind=proof timeout=900 unwindset="from_fn|drop_glue|drop_in_place:258" inst="Wrapped<u8>: Huffman-ENCODED item vs raw item (uniform 2-bit code over the symbols 0..3, table via hook; no B-tree)" bounds="encoded item = 2 code words (4 bits of a symbolic byte); raw item = 2 symbolic symbols in 0..3" desc="== across representations coincides with equality of the decoded symbol vectors"
 #[cfg_attr(kani, kani::proof, kani::unwind(8))]
 pub fn c15_wrapped_encoded_raw_eq() {
     enc_raw(0, 2);
 }
 
-// @h prop=C15 tier=quick kind=proof timeout=900 unwindset="from_fn|drop_glue|drop_in_place:258" inst="Wrapped<u8>: Huffman-ENCODED item vs raw item" bounds="encoded item = 2 code words; raw item = 3 symbolic symbols (the encoded item may be a proper prefix)" desc="partial_cmp across representations coincides with the lexicographic order of the decoded symbol vectors"
+// @h memw=5 prop=C15 tier=quick kind=proof timeout=900 unwindset="from_fn|drop_glue|drop_in_place:258" inst="Wrapped<u8>: Huffman-ENCODED item vs raw item" bounds="encoded item = 2 code words; raw item = 3 symbolic symbols (the encoded item may be a proper prefix)" desc="partial_cmp across representations coincides with the lexicographic order of the decoded symbol vectors"
 #[cfg_attr(kani, kani::proof, kani::unwind(8))]
 pub fn c15_wrapped_encoded_raw_cmp() {
     enc_raw(1, 3);
